@@ -44,7 +44,12 @@ def mk_init(cls, keys):
         # first addition from the empty state establishes WF with n == 1
         s = _sample(E, keys)
         E.call(E.getattr(o, "add_sample"), **s)
-        view = B.BufView(o, list(keys), {k: o.fields["buffer"][k].dtype for k in keys}, 1, N, o.fields["buffer"])
+        # storage dtype: the DECLARED one (constructor argument / documented default), not the first sample's
+        declared = {k: ("float" if keys is not B.DEFAULT_KEYS else B.DEFAULT_DTYPES[k]) for k in keys}
+        for k in keys:
+            got = getattr(o.fields["buffer"][k], "dtype", None)
+            (E.st.ok if got == declared[k] else (lambda nm, got=got, k=k: E.st.fail(nm, f"storage of {k!r} allocated with dtype {got}, declared {declared[k]}")))(f"add_first.storage_dtype_is_declared[{k}]")
+        view = B.BufView(o, list(keys), declared, 1, N, o.fields["buffer"])
         Hm = {k: (lambda j, k=k: cast_fn(view.dtypes[k])(s[k].z)) for k in keys}
         B.oblige_wf(E, "add_first", view, 1, Hm)
         E.oblige("canary.len_stays_zero", C.compare("==", o.fields["current_len"], 0), assume_after=False)
